@@ -339,9 +339,19 @@ func premiseLocalRules(c *Ctx, pkg string) {
 // accepts, returns the specified shape and does not panic (a validator of Patch that rejects the partial index Slice's
 // rule hands on makes back-propagation fail although every rule "is" its VJP).
 func premiseRuleOps(c *Ctx) {
+	if c.ruleOpsDone {
+		return
+	}
+	c.ruleOpsDone = true
 	names := engine.TensorMethodsInvokedBy(c.P, c.A, core.PkgGrad)
 	if len(names) == 0 {
 		return
+	}
+	if c.premShape == nil {
+		c.premData, c.premShape = map[string]bool{}, map[string]bool{}
+	}
+	for _, n := range names {
+		c.premShape[n] = true
 	}
 	c.R.Rule("premise (rule operations): the Tensor methods the backward rules invoke (" + strings.Join(names, ", ") + ") accept every argument tuple their specification accepts, with the specified shape and without panicking (A4.pre rejects-valid, A4.shape, S6.panic on the shape-mode instances)")
 	RunOps(c, OpFilter{Methods: names, Keep: func(rule, construct string) bool {
@@ -368,12 +378,30 @@ func premiseOps(c *Ctx, pkg string, only ...string) {
 		return
 	}
 	c.R.Rule("premise D.elements: the Tensor methods invoked by " + pkg[strings.LastIndex(pkg, "/")+1:] + " (" + strings.Join(names, ", ") + ") are re-checked in labelled-element mode (incl. sizes straddling every block/chunk constant of the implementation)")
-	RunData(c, inSet(names...), dataKeep)
+	// a method that an earlier premise of this check already covered is not run again
+	if c.premData == nil {
+		c.premData, c.premShape = map[string]bool{}, map[string]bool{}
+	}
+	tag := ""
+	if c.nonFinite {
+		tag = "+inf"
+	}
+	var fresh []string
+	for _, n := range names {
+		if !c.premData[n+tag] {
+			c.premData[n+tag] = true
+			fresh = append(fresh, n)
+		}
+	}
+	if len(fresh) > 0 {
+		RunData(c, inSet(fresh...), dataKeep)
+	}
 	// … and with SYMBOLIC sizes: they accept every argument tuple their specification accepts (any batch size, not only
 	// the small concrete ones), with the specified shape and without panicking
 	var ops []string
 	for _, n := range names {
-		if c.A != nil && c.P.Func(core.PkgCPU, "(*CPUTensor)."+n) != nil {
+		if c.A != nil && c.P.Func(core.PkgCPU, "(*CPUTensor)."+n) != nil && !c.premShape[n] {
+			c.premShape[n] = true
 			ops = append(ops, n)
 		}
 	}
@@ -403,7 +431,7 @@ func premiseNilOnError(c *Ctx) {
 	}})
 }
 
-// phaseBudget limits the interpretation that follows to half of what is left of the check's time budget; the
+// phaseBudget limits the interpretation that follows to two thirds of what is left of the check's time budget; the
 // returned function lifts the limit again.
 func phaseBudget(c *Ctx) func() {
 	global := interp.SoftDeadline
@@ -412,7 +440,7 @@ func phaseBudget(c *Ctx) func() {
 	}
 	left := time.Until(global)
 	if left > 0 {
-		interp.SoftDeadline = time.Now().Add(left / 2)
+		interp.SoftDeadline = time.Now().Add(left * 2 / 3)
 	}
 	return func() { interp.SoftDeadline = global }
 }
